@@ -307,6 +307,7 @@ func searchCases(seed uint64, round, n, total int) []tcase {
 // generators as the search and compares outcome class and projected values with the extracted model
 var stage2Modelled = []string{"avc.ParseSPSNALUnit", "avc.ParsePPSNALUnit", "avc.ParseSliceHeader", "avc.ParsePSAndSlice",
 	"avc.GetSliceTypeFromNALU", "avc.ParseSEINalu", "hevc.ParseSEINalu",
+	"avc.ParseSPSAndSEI", "avc.DecConfRecAndSlice", // pipelines composed from the models by the driver
 	// models of C17 / C18 / C14 through the partial-operation wrappers of C16AuxModel.v
 	"sei.ExtractSEIData", "sei.DecodeTimeCodeSEI", "sei.DecodePicTimingAvcSEIHRD",
 	"sei.DecodeMasteringDisplayColourVolumeSEI", "sei.DecodeContentLightLevelInformationSEI",
